@@ -1,3 +1,134 @@
-(* C07 — property theorems (statements only; proofs live in Proofs.v). *)
-From Coq Require Import ZArith QArith Bool List.
-Require Import QV.C07.Model QV.C07.Spec.
+(* C07 — property theorems (statements only; proofs live in ProofsRange.v / ProofsLoop.v / ProofsAtoms.v).
+   The full statements (one induction over the whole template type) are kept as `C07_*_statement`; what is proved are
+   the per-class rules they are assembled from (`_partial`), unbounded in ranges / entry lists / coefficients. *)
+From Coq Require Import ZArith QArith Qround Bool List.
+Require Import QV.C07.Model QV.C07.Spec QV.C07.ProofsRange QV.C07.ProofsLoop QV.C07.ProofsAtoms.
+Import ListNotations.
+Open Scope Q_scope.
+
+(* ---- full statements (not proved as a whole; need a well-formedness side condition on p) ---- *)
+Definition C07_integral_statement : Prop := forall p rho pcs c e,
+  denote p rho = Some pcs -> dget c (integral_expr p) = Some e -> exists x, p_int pcs c = Some x /\ ev_eq rho e x.
+Definition C07_initial_statement : Prop := forall p rho pcs c e x,
+  denote p rho = Some pcs -> dget c (initial_expr p) = Some e -> p_at0 pcs c = Some x -> ev_eq rho e x.
+Definition C07_final_statement : Prop := forall p rho pcs c e x,
+  denote p rho = Some pcs -> dget c (final_expr p) = Some e -> p_end pcs c = Some x -> ev_eq rho e x.
+
+(* ---- Python range vs. the closed forms of ForLoopPT ---- *)
+Theorem C07_range_count : forall a o s, (s <> 0)%Z ->
+  range_len a o s = Z.max 0 (Qceil (inject_Z (o - a) / inject_Z s)).
+Proof. exact range_len_ceil. Qed.
+Print Assumptions C07_range_count.
+
+Theorem C07_range_last_ceiling : forall a o s ks, py_range a o s = Some ks -> ks <> [] ->
+  last ks 0%Z = (a + (Z.max 0 (Qceil (inject_Z (o - a) / inject_Z s)) - 1) * s)%Z.
+Proof. exact py_range_last_ceil. Qed.
+Print Assumptions C07_range_last_ceiling.
+
+(* ForLoopPT.integral (and .duration): Piecewise((0, count <= 0), (Sum(body[i -> start + i*step], (i, 0, Max(count,1)-1)), True))
+   evaluates to the sum of the body's values over the Python range — every range shape, unbounded *)
+Theorem C07_integral_partial_for : forall rho i start stop step e a o s ks (f : Z -> Q),
+  int_val rho start a -> int_val rho stop o -> int_val rho step s ->
+  indep i start rho -> indep i step rho ->
+  py_range a o s = Some ks ->
+  (forall k q, In k ks -> q == inject_Z k -> ev_eq (env_upd rho i (Some q)) e (f k)) ->
+  ev_eq rho (EIfLe (loop_count start stop step) e0 e0 (loop_sum i start stop step e)) (sumZ f ks).
+Proof. exact for_sum_correct. Qed.
+Print Assumptions C07_integral_partial_for.
+
+(* the specification side of the same rule: integrals add over concatenated pieces *)
+Theorem C07_integral_partial_concat : forall a b c x y, p_int a c = Some x -> p_int b c = Some y ->
+  exists z, p_int (a ++ b) c = Some z /\ z == x + y.
+Proof. exact p_int_app. Qed.
+Print Assumptions C07_integral_partial_concat.
+
+Theorem C07_initial_partial_for : forall rho i start a e (f : Z -> Q) ks o s,
+  int_val rho start a -> py_range a o s = Some ks -> ks <> [] ->
+  (forall k q, In k ks -> q == inject_Z k -> ev_eq (env_upd rho i (Some q)) e (f k)) ->
+  ev_eq rho (ELet [(i, start)] e) (f (hd 0%Z ks)).
+Proof. exact for_initial_correct. Qed.
+Print Assumptions C07_initial_partial_for.
+
+(* ForLoopPT.final_values as written (floor division) — refuted, then proved under the guard "step divides the span" *)
+Theorem C07_final_for_refuted :
+  exists rho i start stop step e a o s ks (f : Z -> Q),
+    int_val rho start a /\ int_val rho stop o /\ int_val rho step s /\ py_range a o s = Some ks /\ ks <> [] /\
+    (forall k q, In k ks -> q == inject_Z k -> ev_eq (env_upd rho i (Some q)) e (f k)) /\
+    ~ ev_eq rho (ELet [(i, loop_final_index start stop step)] e) (f (last ks 0%Z)).
+Proof. exact for_final_refuted. Qed.
+Print Assumptions C07_final_for_refuted.
+
+Theorem C07_final_index_refuted_negative_step :
+  exists a o s ks, (s < 0)%Z /\ py_range a o s = Some ks /\ ks <> [] /\ floor_final_index a o s <> last ks 0%Z.
+Proof. exact floor_final_index_wrong_neg. Qed.
+Print Assumptions C07_final_index_refuted_negative_step.
+
+Definition guard_C07_for_final_floor (a o s : Z) : bool := ((o - a) mod s =? 0)%Z.
+
+Theorem C07_final_partial_for_guarded : forall rho i start stop step e a o s ks (f : Z -> Q),
+  int_val rho start a -> int_val rho stop o -> int_val rho step s ->
+  py_range a o s = Some ks -> ks <> [] -> guard_C07_for_final_floor a o s = true ->
+  (forall k q, In k ks -> q == inject_Z k -> ev_eq (env_upd rho i (Some q)) e (f k)) ->
+  ev_eq rho (ELet [(i, loop_final_index start stop step)] e) (f (last ks 0%Z)).
+Proof.
+  intros rho i start stop step e a o s ks f Ha Ho Hs Hr Hne Hg Hb.
+  eapply for_final_correct_guarded; eauto. unfold guard_C07_for_final_floor in Hg. apply Z.eqb_eq. exact Hg.
+Qed.
+Print Assumptions C07_final_partial_for_guarded.
+
+Theorem C07_final_for_guard_nonvacuous :
+  exists rho i start stop step e a o s ks (f : Z -> Q),
+    int_val rho start a /\ int_val rho stop o /\ int_val rho step s /\ py_range a o s = Some ks /\ ks <> [] /\
+    ((o - a) mod s = 0)%Z /\
+    (forall k q, In k ks -> q == inject_Z k -> ev_eq (env_upd rho i (Some q)) e (f k)) /\
+    ev_eq rho (ELet [(i, loop_final_index start stop step)] e) (f (last ks 0%Z)).
+Proof. exact for_final_guard_satisfiable. Qed.
+Print Assumptions C07_final_for_guard_nonvacuous.
+
+(* ---- atoms ---- *)
+(* TablePT: integral[c] (TableEntry._sequence_integral over pre entry + entries + post entry) is the exact integral of
+   the denoted channel, for every entry list with non-decreasing times (zero-length steps included) *)
+Theorem C07_integral_partial_table : forall rho es l dexp D t0e v0e ip0 es' t0 v0 ipn l' vle,
+  es = (t0e, v0e, ip0) :: es' -> l = (t0, v0, ipn) :: l' ->
+  Forall2 (fun e n => eval_entry rho e = Some n) es l ->
+  eval rho dexp = Some D ->
+  (match last es (e0, e0, IHold) with (_, v, _) => v end) = vle ->
+  Qle_bool 0 t0 = true -> times_ok t0 (l ++ [(D, snd (last_tv l (t0, v0)), IHold)]) = true ->
+  exists f, table_chfun D l = Some f /\
+            ev_eq rho (sequence_integral e0 (e0, v0e) (es ++ [(dexp, vle, IHold)])) (f_int D f).
+Proof. exact table_channel_integral. Qed.
+Print Assumptions C07_integral_partial_table.
+
+Theorem C07_integral_partial_constant : forall rho d v dd vv, eval rho d = Some dd -> eval rho v = Some vv ->
+  ev_eq rho (EMul d v) (f_int dd (FSegs [(dd, [vv])] vv)).
+Proof. exact const_integral. Qed.
+Print Assumptions C07_integral_partial_constant.
+
+Theorem C07_integral_partial_function : forall rho d dd coef cf, eval rho d = Some dd ->
+  Forall2 (fun e q => eval rho e = Some q) coef cf ->
+  ev_eq rho (poly_int_from 0 d coef) (f_int dd (FSegs [(dd, cf)] (peval cf dd))).
+Proof. exact func_integral. Qed.
+Print Assumptions C07_integral_partial_function.
+
+(* the integral of a polynomial piece used by the specification is a formal antiderivative vanishing at 0 *)
+Theorem C07_poly_antiderivative : forall p, Forall2 Qeq (pderiv (panti p)) p /\ peval (panti p) 0 == 0.
+Proof. intros p. split; [apply pderiv_panti|apply panti_at_0]. Qed.
+Print Assumptions C07_poly_antiderivative.
+
+(* ---- pad_to ---- *)
+Theorem C07_pad : forall p rho pcs d' dd vs,
+  denote p rho = Some pcs ->
+  eval rho (ESub d' (duration_expr p)) = Some dd -> Qle_bool dd 0 = false ->
+  opt_all (map (fun kv => option_map (fun q => (fst kv, q)) (eval rho (snd kv))) (final_expr p)) = Some vs ->
+  denote (pad_to p d') rho = Some (pcs ++ [(dd, map (fun kv => (fst kv, FSegs [(dd, [snd kv])] (snd kv))) vs)]).
+Proof. exact pad_to_denote. Qed.
+Print Assumptions C07_pad.
+
+Theorem C07_pad_holds_final_value : forall p rho pcs d' dd vs c v,
+  denote p rho = Some pcs ->
+  eval rho (ESub d' (duration_expr p)) = Some dd -> Qle_bool dd 0 = false ->
+  opt_all (map (fun kv => option_map (fun q => (fst kv, q)) (eval rho (snd kv))) (final_expr p)) = Some vs ->
+  dget c vs = Some v ->
+  exists ppcs, denote (pad_to p d') rho = Some ppcs /\ p_end ppcs c = Some v.
+Proof. exact pad_to_end. Qed.
+Print Assumptions C07_pad_holds_final_value.
